@@ -37,6 +37,9 @@ type c20Job struct {
 	RunsOn       string
 	DefaultShell string
 	Steps        []c20Step
+	// DefaultsWithoutShell: the job has a defaults.run section that sets no shell (only a working
+	// directory): the default shell of the workflow still applies
+	DefaultsWithoutShell bool
 }
 
 type c20File struct {
@@ -144,6 +147,11 @@ func (sc *c20Scenario) render() (texts []string, exp []c20Expect) {
 			j := &f.Jobs[ji]
 			w(fmt.Sprintf("  j%d:", ji))
 			w("    runs-on: " + j.RunsOn)
+			if j.DefaultsWithoutShell && j.DefaultShell == "" {
+				w("    defaults:")
+				w("      run:")
+				w("        working-directory: sub")
+			}
 			if j.DefaultShell != "" {
 				w("    defaults:")
 				w("      run:")
@@ -220,6 +228,8 @@ var c20Menus = map[string][]c20Outcome{
 		{"1issue-echoing-the-marker", false, 1, vexec.Outcome{Stdout: []byte("<stdin>:1:30: unexpected EOF while parsing\nprint(\"see <stdin>:1:1: foo\", (\n                             ^\n"), ExitCode: 1}},
 		// the stream handed to the rule is stdout+stderr combined: a crash writes only to stderr
 		{"crash-traceback-on-stderr", true, 0, vexec.Outcome{ExitCode: 1, Stdout: []byte("Traceback (most recent call last):\n  File \"<frozen runpy>\", line 198, in _run_module_as_main\n/usr/bin/python3: No module named pyflakes\n")}},
+		// a failure message that mentions <stdin>: in the middle of a line: no issue line at all
+		{"fatal-message-mentioning-stdin", true, 0, vexec.Outcome{ExitCode: 1, Stdout: []byte("pyflakes: fatal: cannot read <stdin>: broken\n")}},
 		{"start-failure", true, 0, vexec.Outcome{StartErr: errors.New("fork/exec /fake/pyflakes: exec format error")}},
 		{"stdin-pipe-error", true, 0, vexec.Outcome{PipeErr: errors.New("pipe: too many open files")}},
 		{"stdin-write-error", true, 0, vexec.Outcome{WriteErr: errors.New("write |1: broken pipe")}},
@@ -399,7 +409,9 @@ func c20Scenarios() []*c20Scenario {
 	one := func(name string, f c20File, cpus int, api string) {
 		scs = append(scs, &c20Scenario{Name: name, Files: []c20File{f}, CPUs: cpus, API: api})
 	}
-	job := func(runsOn, def string, steps ...c20Step) c20Job { return c20Job{runsOn, def, steps} }
+	job := func(runsOn, def string, steps ...c20Step) c20Job {
+		return c20Job{RunsOn: runsOn, DefaultShell: def, Steps: steps}
+	}
 	// shell sources, one run step each (single file: LintFile and Lint paths)
 	for _, api := range []string{"LintFile", "Lint"} {
 		one("step-bash/"+api, c20File{Jobs: []c20Job{job("ubuntu-latest", "", c20Step{Shell: "bash", Script: ph})}}, 2, api)
@@ -413,6 +425,9 @@ func c20Scenarios() []*c20Scenario {
 	one("job-default-python", c20File{Jobs: []c20Job{job("ubuntu-latest", "python", c20Step{Shell: "", Script: ph}, c20Step{Shell: "bash", Script: "x"})}}, 2, "LintFile")
 	one("job-default-sh", c20File{Jobs: []c20Job{job("ubuntu-latest", "sh", c20Step{Shell: "", Script: ph})}}, 1, "LintFile")
 	one("workflow-default-python", c20File{DefaultShell: "python", Jobs: []c20Job{job("ubuntu-latest", "", c20Step{Shell: "", Script: ph}), job("ubuntu-latest", "bash", c20Step{Shell: "", Script: "x"})}}, 2, "LintFile")
+	// a job whose defaults.run sets no shell keeps the workflow's default shell (both tools)
+	one("workflow-default-python-job-defaults-without-shell", c20File{DefaultShell: "python", Jobs: []c20Job{{RunsOn: "ubuntu-latest", Steps: []c20Step{{Shell: "", Script: ph}}, DefaultsWithoutShell: true}, {RunsOn: "ubuntu-latest", Steps: []c20Step{{Shell: "", Script: "x"}}}}}, 2, "LintFile")
+	one("workflow-default-bash-job-defaults-without-shell", c20File{DefaultShell: "bash", Jobs: []c20Job{{RunsOn: "ubuntu-latest", Steps: []c20Step{{Shell: "", Script: "y"}}}, {RunsOn: "windows-latest", Steps: []c20Step{{Shell: "", Script: ph}}, DefaultsWithoutShell: true}}}, 2, "Lint")
 	one("workflow-default-bash-job-python", c20File{DefaultShell: "bash", Jobs: []c20Job{job("ubuntu-latest", "python", c20Step{Shell: "", Script: ph})}}, 2, "LintFile")
 	one("windows-runner", c20File{Jobs: []c20Job{job("windows-latest", "", c20Step{Shell: "", Script: ph}, c20Step{Shell: "bash", Script: "x"}), job("ubuntu-latest", "", c20Step{Shell: "", Script: "z"})}}, 2, "LintFile")
 	one("windows-runner-job-default-bash", c20File{Jobs: []c20Job{job("Windows-2022", "bash", c20Step{Shell: "", Script: ph})}}, 2, "LintFile")
